@@ -1,4 +1,4 @@
-import Gtree.Generated.SourceHeap
+import Gtree.Generated.Heap.Builder
 /-
   `stack.dfs` of the source (stack.go, with push / pop / size over container/list and the methods of node.go it
   calls: `isDirectlyUnder`, `findChildByText`, `addChild`, `setParent`), translated over the heap by /verif/translate
